@@ -13,6 +13,9 @@ def run(rep, tier, seed):
     cfgs = nttcheck.ntt_configs(tier, seed)
     res = nttcheck.run_parallel('ntt', cfgs)
     nttcheck.record(rep, 'ntt', res, nttcheck.describe_ntt, 'dft-bounded-shape')
+    ntab = nttcheck.check_tables(rep, tier)
+    rep.floor('table checks', ntab, 20)
+    nttcheck.threshold_notes(rep, 'ntt')
     rep.floor('configurations', len(res), 1000 if tier == 'quick' else 20000)
     nttrules.run_rules(rep, ('null', 'dep-s', 'shift', 'abort-census', 'w-chain'))
     rep.sample(dict(kind='ntt', example=nttcheck.describe_ntt(cfgs[len(cfgs) // 2]), configurations=len(cfgs)))
